@@ -176,8 +176,12 @@ def run_moving(case):
     for i, o in enumerate(outs):
         dt = o['dt']
         n_steps = len(o['t']) - 1
-        E['gyro'].append(np.abs(o['g'] - o['w']).max())
-        E['accel'].append(np.abs(o['a'] - o['f']).max())
+        # increment readings are compared per unit time (increment / dt = average over the interval): the average
+        # over an interval is the MEAN of the averages over its two halves, so the telescoped law holds with unit
+        # weights (for the raw increments the errors of the two halves add and the weights would be 2^j)
+        per = dt if inc_type else 1.0
+        E['gyro'].append(np.abs(o['g'] - o['w']).max() / per)
+        E['accel'].append(np.abs(o['a'] - o['f']).max() / per)
         lla_true = m.lla(o['t'])
         E['traj_pos'].append(pos_m(o['traj'][:, 0] - lla_true[:, 0] * geo.R2D,
                                    o['traj'][:, 1] - lla_true[:, 1] * geo.R2D,
@@ -189,19 +193,15 @@ def run_moving(case):
         E['inv_att'].append(att_err(o['sol'][:, 6:9], o['traj'][:, 6:9]).max())
         fa = 40 * EPS * R_EARTH / dt ** 2
         fg = 64 * EPS / dt
-        if inc_type:
-            F['gyro'].append(fg * dt + 1e-16)
-            F['accel'].append(fa * dt)
-        else:
-            F['gyro'].append(fg)
-            F['accel'].append(fa)
+        F['gyro'].append(fg + (1e-16 / dt if inc_type else 0.0))
+        F['accel'].append(fa)
         F['traj_pos'].append(64 * EPS * R_EARTH)
         if case.get('long') and form == 'lla0_vel':
             # the library integrates latitude by a fixed-point iteration that it stops at
             # ACCURACY = 0.01 m (sim.generate_imu); a position error drifting by that much over
             # the run biases the Hermite-spline acceleration by 6 * (drift per sample) / dt^2
             F['traj_pos'][-1] += 0.01
-            F['accel'][-1] += 6 * 0.01 / (case['T'] * dt) * (dt if inc_type else 1.0)
+            F['accel'][-1] += 6 * 0.01 / (case['T'] * dt)
         F['traj_vel'].append(40 * EPS * R_EARTH / dt)
         F['inv_vel'].append(fa * dt * np.sqrt(n_steps) + 64 * EPS * 400 * np.sqrt(n_steps))
         F['inv_pos'].append(F['inv_vel'][-1] * case['T'] + 64 * EPS * R_EARTH * np.sqrt(n_steps))
@@ -210,8 +210,8 @@ def run_moving(case):
         if inc_type:
             gs = fn['g'][1::2] + fn['g'][2::2]
             as_ = fn['a'][1::2] + fn['a'][2::2]
-            H['gyro'].append(np.abs(c['g'][1:] - gs).max())
-            H['accel'].append(np.abs(c['a'][1:] - as_).max())
+            H['gyro'].append(np.abs(c['g'][1:] - gs).max() / c['dt'])
+            H['accel'].append(np.abs(c['a'][1:] - as_).max() / c['dt'])
         else:
             H['gyro'].append(np.abs(c['g'] - fn['g'][::2]).max())
             H['accel'].append(np.abs(c['a'] - fn['a'][::2]).max())
